@@ -29,15 +29,37 @@ def run(ctx, histories, ops, with_timeout, name="ae.jsonl", faultp=0.25, bigp=0.
         raise RuntimeError("App Engine harness did not run to completion: rc=%s\n%s" % (rc, out[-2000:]))
     hists = collections.defaultdict(list)
     timeout = None
+    conc = []
     for r in rows:
         if r["kind"] == "op":
             hists[r["h"]].append(r)
         elif r["kind"] == "timeout504":
             timeout = r
-    return {"histories": [hists[k] for k in sorted(hists)], "timeout": timeout, "wall_s": dt}
+        elif r["kind"] == "conc":
+            conc.append(r)
+    return {"histories": [hists[k] for k in sorted(hists)], "timeout": timeout, "conc": conc, "wall_s": dt}
+
+
+def oracle_conc(rows):
+    res = []
+    for r in rows or []:
+        rp = {"driver": "harness/cmd/appengine concurrentRelay: %d requests in flight, all agent posts issued at once" % r["clients"], "observed": r}
+        if r["wrong_response"]:
+            res.append(("concurrent:client-got-foreign-response", "%d of %d clients received a response other than the one posted under their request ID (%s)" % (r["wrong_response"], r["clients"], "; ".join(r.get("examples") or [])[:300]), rp))
+        if r["no_response"]:
+            res.append(("concurrent:client-not-answered", "%d of %d clients got no answer although every request was answered by the agent" % (r["no_response"], r["clients"]), rp))
+        if r["bytes_differ"]:
+            res.append(("concurrent:client-response-bytes-differ", "%d of %d clients received bytes that differ from the posted response" % (r["bytes_differ"], r["clients"]), rp))
+    return res
 
 
 # ---------------------------------------------------------------- translation to the model's vocabulary
+
+def unquote_path(p):
+    """the decoded path the app routes on (r.URL.Path)"""
+    import urllib.parse
+    return urllib.parse.unquote(p)
+
 
 def rid_num(rid):
     m = re.match(r"rid0*(\d+)$", rid or "")
@@ -124,7 +146,7 @@ def translate(hist):
             k = op["k"]
             ln = obs["stored_len"] if obs.get("outcome") == "stored" else op["body_len"] + 500
             T.calls[k] = {"rid": rid_num(op["rid"]), "user": op["user"], "len": ln}
-            path = op["url"].split("?")[0]
+            path = unquote_path(op["url"].split("?")[0])
             user = "(Some %s)" % C.slit(op["user"]) if op["user"] else "None"
             o = "OUStart %s %s %s %s %s %s %s %s" % (user, C.blit(op["raw"]), C.blit(op["method"] == "GET"), C.slit(op["url"]), C.slit(path), C.zlit(rid_num(op["rid"])), payload(k, ln), flist(fs))
             if obs.get("outcome") == "stored":
@@ -431,7 +453,7 @@ def oracle_c18(h):
             continue
         if obs.get("outcome") == "returned" and obs.get("resp_tag"):
             continue   # served from the GET cache after a successful lookup
-        path = op["url"].split("?")[0]
+        path = unquote_path(op["url"].split("?")[0])
         gt = obs["gt_backends"]
 
         def best(cands):
